@@ -12,5 +12,8 @@ fi
 "$VERIF_ROOT/.build/instr" -repo "$REPO_ROOT" -verif "$VERIF_ROOT" -out "$OUT" >&2
 FLAGS=""
 if [ "$V" = race ]; then FLAGS="-race"; fi
-(cd "$REPO_ROOT" && go build $FLAGS -tags verif -overlay "$OUT/overlay.json" -o "$OUT/mc" ./verifcmd/mc) >&2
+if ! (cd "$REPO_ROOT" && go build $FLAGS -tags "verif verifdeep" -overlay "$OUT/overlay.json" -o "$OUT/mc" ./verifcmd/mc) 2>"$OUT/build_deep.err"; then
+  # private-state introspection no longer compiles against this tree: build without it
+  (cd "$REPO_ROOT" && go build $FLAGS -tags verif -overlay "$OUT/overlay.json" -o "$OUT/mc" ./verifcmd/mc) >&2
+fi
 echo "$OUT/mc"
